@@ -56,6 +56,8 @@ class Query:
     limit: int | None = None
     offset: int | None = None
     summarized: bool = False
+    # the columns computed by the last `summarize`
+    summarize_cols: list[UUID] = dataclasses.field(default_factory=list)
 
 
 class SqlImpl(TableImpl):
@@ -398,11 +400,6 @@ class SqlImpl(TableImpl):
             query.select = [uid for uid in query.select if sqa_expr[uid].name not in set(nd.names)]
 
         if isinstance(nd, verbs.SubqueryMarker):
-            if needed_cols.keys().isdisjoint(sqa_expr.keys()):
-                # We cannot select zero columns from a subquery. This happens when the
-                # user only 0-ary functions after the subquery, e.g. `count`.
-                needed_cols[query.select[0]] = 1
-
             # We only want to select those columns that (1) the user uses in some
             # expression later or (2) are present in the final selection.
 
@@ -416,6 +413,14 @@ class SqlImpl(TableImpl):
             needed = list(needed_cols.keys()) + [
                 col._uuid for col in query.partition_by if col._uuid not in needed_cols
             ]
+            # A summarize without grouping yields one row only as long as the SELECT
+            # contains an aggregate function, so keep one of its columns.
+            if query.summarized and not query.group_by and not any(uid in needed for uid in query.summarize_cols):
+                needed.extend(query.summarize_cols[:1])
+            if not any(uid in sqa_expr for uid in needed):
+                # We cannot select zero columns from a subquery. This happens when the
+                # user only 0-ary functions after the subquery, e.g. `count`.
+                needed.append(original_select[0])
 
             # resolve potential column name collisions in the subquery
             for uid in needed:
@@ -477,6 +482,7 @@ class SqlImpl(TableImpl):
             query.partition_by = []
             query.order_by.clear()
             query.summarized = True
+            query.summarize_cols = list(nd.uuids)
 
         elif isinstance(nd, verbs.SliceHead):
             if query.limit is None:
